@@ -918,17 +918,24 @@ func BetweenExpr(query *Query, current Map, expr *sqlparser.BetweenExpr, opts ..
 	if err != nil {
 		return false, err
 	}
-	pointValue := fmt.Sprintf("%v", pointValueRaw)
-	fromValue := fmt.Sprintf("%v", from)
-	toValue := fmt.Sprintf("%v", to)
+	fromValue, err := ValueOf(query, current, from)
+	if err != nil {
+		return false, err
+	}
+	toValue, err := ValueOf(query, current, to)
+	if err != nil {
+		return false, err
+	}
+	// BETWEEN is inclusive and compares like >= and <= do
+	between := compare.Compare(pointValueRaw, fromValue) >= 0 && compare.Compare(pointValueRaw, toValue) <= 0
 	switch expr.IsBetween {
 	case true:
 		{
-			return (pointValue > fromValue) && (pointValue < toValue), nil
+			return between, nil
 		}
 	default:
 		{
-			return !((pointValue > fromValue) && (pointValue < toValue)), nil
+			return !between, nil
 		}
 	}
 }
